@@ -67,9 +67,9 @@ job("r0.native.bn_digit_mult__int.w16.port", "native_digit16.c", ["BN_DIGIT_BIT_
     bound="exhaustive native enumeration of all 2^32 operand pairs at W = 16, portable body (not a deductive obligation)")
 
 # ------------------------------------------------------------------ rung 1 (a): digit arrays, unbounded safety
-def loops_file(key, fns):
+def loops_file(key, fns, maxd=None):
     path = os.path.join(VERIF, "loops", "bn_%s.json" % key)
-    json.dump(compose(fns), open(path, "w"), indent=1)
+    json.dump(compose(fns, maxd), open(path, "w"), indent=1)
     return "loops/bn_%s.json" % key
 
 R1A = {  # fn -> functions with loops reachable from it
@@ -186,15 +186,19 @@ for key, full, repl, qn, tn in R2:
 DIV_REPL = ["bn_is_zero", "bn_cmp", "bn_assign_digit", "bn_assign_zero", "bn_assign", "bn_digit_clz", "bn_assign_init",
             "bn_init_digits__int", "bn_l_shift", "bn_r_shift", "bn_digit_div__int_short", "bn_digits_sub_digit_mult__int",
             "bn_digits_cmp", "bn_digits_sub__int", "bn_update_digits__int"]
-DIV_CBMC = ["--unwind", "7", "--unwindset", "vf_d_clz.0:10,vf_d_ctz.0:10,vf_d_popcount.0:10,__CPROVER_contracts_write_set_check_assigns_clause_inclusion.0:40,__CPROVER_contracts_write_set_check_frees_clause_inclusion.0:40", "--unwinding-assertions", "--object-bits", "10"]
+def div_cbmc(cap):
+    # per-loop bounds (symbolic execution of 7 x 7 nested iterations with contract instrumentation takes > 15 min):
+    # loop .0 = quotient-correction while loop, .1 = loop over the quotient digits (<= cap iterations)
+    us = "bn_div_wrapped_for_contract_checking.0:6,bn_div_wrapped_for_contract_checking.1:%d," % (cap + 2)
+    return ["--unwind", "3", "--unwindset", us + "vf_d_clz.0:10,vf_d_ctz.0:10,vf_d_popcount.0:10,__CPROVER_contracts_write_set_check_assigns_clause_inclusion.0:40,__CPROVER_contracts_write_set_check_frees_clause_inclusion.0:40", "--unwinding-assertions", "--object-bits", "12"]
 DIV_FORMS = {0: "separate remainder", 1: "remainder NULL", 2: "remainder == bn", 3: "bn == d"}
 for cap, tier, tmo in ((1, "quick", 900), (2, "thorough", 7200)):
     for form, ftxt in DIV_FORMS.items():
         job("r2.bn_div.w8.cap%d.form%d" % (cap, form), "bn2.c",
             cfg(8, True, bitlen=16, extra=["VF_FN_div", "VF_DIV_FORM=%d" % form, "VF_DIV_MAXCOUNT=%d" % cap, "VF_BN_ASSUME_DISTRIB"] + vb(16)),
             enforce=["bn_div"], replace=DIV_REPL, functions=["bn_div"], route="bounded", backend="kissat",
-            bound="W = 8, build with BN_MAX_DIGITS = 2, dividend capacity and divisor <= %d digit(s), %s; loops unwound 7 times with unwinding assertions (quotient-correction loop included); callees replaced by their contracts" % (cap, ftxt),
-            assumptions=[DISTRIB_ASSUME], tier=tier, timeout=tmo, timeout_thorough=tmo, cbmc=DIV_CBMC)
+            bound="W = 8, build with BN_MAX_DIGITS = 2, dividend capacity and divisor <= %d digit(s), %s; quotient-digit loop and quotient-correction loop (<= 5 corrections) fully unwound, exceeding the bound is a violation; callees replaced by their contracts" % (cap, ftxt),
+            assumptions=[DISTRIB_ASSUME], tier=tier, timeout=tmo, timeout_thorough=tmo, unwind_violation=True, mem_gb=28, cbmc=div_cbmc(cap))
 
 # ------------------------------------------------------------------ rung 2: recodings (plain, monolithic, bounded scalars)
 for key, full in (("naf", "bn_calc_naf"), ("jsf", "bn_calc_jsf"), ("combo", "bn_combo_column_get")):
@@ -298,6 +302,21 @@ for key, full, repl in R3LC:
         bound="W = 8, build with BN_MAX_DIGITS = 2 (every capacity, value, exponent); the exponent loop is closed by a loop contract (invariant: operands well-formed; decreases: remaining exponent bits), so the number of iterations is unbounded; callees replaced by their contracts",
         loops=loops_file(key, [full]), foreach=[{"SZ": 1, "MAXD": nd}],
         tier="thorough", timeout=1800, timeout_thorough=1800,
+        cbmc=["--object-bits", "10"])
+
+R3LC2 = [
+ ("gcd", "bn_gcd", ["bn_assign", "bn_cmp", "bn_assign_init", "bn_div"], 16, []),
+ ("gcd_bin", "bn_gcd_bin", ["bn_assign", "bn_cmp", "bn_assign_init", "bn_ctz", "bn_r_shift", "bn_sub", "bn_l_shift"], 16, []),
+ ("mod_inv_bin", "bn_mod_inv_bin", ["bn_cmp", "bn_init", "bn_assign", "bn_assign_digit", "bn_r_shift", "bn_add", "bn_mod_sub"], 56, ["VF_BN_INV_NO_VALUE", "VF_MAXVAL_DIGITS=3"]),
+]
+for key, full, repl, bitlen, extra in R3LC2:
+    W, nd = 8, bitlen // 8
+    job("r3.%s.loops.w%d.n%d" % (full, W, nd), "bn3.c",
+        cfg(W, True, bitlen=bitlen, extra=["VF_FN_" + key] + vb(bitlen) + extra),
+        enforce=[full], replace=repl, functions=[full], route="bounded", backend="kissat",
+        bound="W = 8, build with BN_MAX_DIGITS = %d; every loop is closed by a loop contract (invariant: operands well-formed and in range; decreases: the remaining value), so the number of iterations is unbounded and termination is proved; callees replaced by their contracts" % nd,
+        loops=loops_file(key + "_lc", [full], maxd=nd), foreach=[{"SZ": 1, "MAXD": nd}],
+        tier="thorough", timeout=3600, timeout_thorough=3600,
         cbmc=["--object-bits", "10"])
 
 # ------------------------------------------------------------------ tier overrides from measured times (quick: <= ~90 s each on an idle 16-core box)
